@@ -182,6 +182,28 @@ unsafe fn tab_remove(p: usize) -> bool {
         i = (i + 1) & (TAB - 1);
     }
 }
+/// is `p` the start of a live block that was allocated inside a subject call?
+pub fn is_tracked_live(p: usize) -> bool {
+    if p == 0 || p == usize::MAX {
+        return false;
+    }
+    lock();
+    let r = unsafe {
+        let mut i = slot_of(p);
+        loop {
+            let s = TABLE[i];
+            if s == EMPTY {
+                break false;
+            }
+            if s == p {
+                break true;
+            }
+            i = (i + 1) & (TAB - 1);
+        }
+    };
+    unlock();
+    r
+}
 /// forget everything (start of a case)
 pub fn tab_reset() {
     lock();
